@@ -230,6 +230,9 @@ class Evaluator:
         if op in ("==", "!="):
             eq = self.equal(a, b)
             return eq if op == "==" else not eq
+        if isinstance(a, tuple) and a and a[0] == "enum" and op in ("<", "<=", ">", ">="):
+            x, y = a[2], b[2]          # enum values order as the integers they denote
+            return {"<": x < y, "<=": x <= y, ">": x > y, ">=": x >= y}[op]
         if isinstance(a, bytes):
             if op == "+":
                 return a + b
